@@ -224,6 +224,28 @@ func checkC16(c *Ctx) error {
 				c.Violate("flag-spelling-changes-effect:"+strings.Join(sp.args, "+"), fmt.Sprintf("flags %v must act like %v: exit %d vs %d, output equal %v\nspelled: %q\nplain:   %q", sp.args, combos[sp.equal], q.Res.Exit, runs[sp.equal].Res.Exit, string(b) == outs[sp.equal], q.Rep.List, runs[sp.equal].Rep.List), files)
 			}
 		}
+		// the way the flags are used in practice: one output path, first generated with both flags, then with fewer and fewer. What a
+		// flag set does must not depend on what an earlier run left at the path: same verdict and diagnostics as on a fresh path, the
+		// same file when accepted, the earlier file untouched when rejected
+		if i%3 == 1 {
+			seq := filepath.Join(dir, "seq.go")
+			for _, k := range []int{3, 1, 2, 0, 3} {
+				args := append(append([]string{"build", "-i", "in.yaml", "-o", seq}, combos[k]...), mode...)
+				before, _ := os.ReadFile(seq)
+				q := cli.Do(w, "", nil, dir, seq, args...)
+				after, _ := os.ReadFile(seq)
+				c.Add("runs_in_flag_sequences_over_one_output_path", 1)
+				want := outs[k]
+				if runs[k].Res.Exit != 0 {
+					want = string(before)
+				}
+				if q.Res.Exit != runs[k].Res.Exit || strings.Join(q.Rep.List, "\n") != strings.Join(runs[k].Rep.List, "\n") || string(after) != want {
+					files["stdout-sequence.txt"] = q.Res.Stdout
+					c.Violate("flag-effect-depends-on-earlier-output:"+strings.Join(combos[k], "+"), fmt.Sprintf("flags %v over the output of an earlier run: exit %d (fresh path: %d), diagnostics equal %v, file as expected %v\nsequence: %q\nfresh:    %q", combos[k], q.Res.Exit, runs[k].Res.Exit,
+						strings.Join(q.Rep.List, "\n") == strings.Join(runs[k].Rep.List, "\n"), string(after) == want, q.Rep.List, runs[k].Rep.List), files)
+				}
+			}
+		}
 		if runs[0].Res.Exit == 0 {
 			c.Add("accepted_without_flags", 1)
 		} else if runs[3].Res.Exit == 0 {
